@@ -427,6 +427,29 @@ func firstRaceLines(rep string) string {
 
 // ---- generator ----
 
+// tameForRace keeps key material small in race runs: under the race detector
+// every byte costs several bytes of shadow memory, and kilobyte keys add nothing
+// to what the schedule explores.
+func tameForRace(g *genTree) {
+	for i := range g.runs {
+		if len(g.runs[i]) > 140 {
+			g.runs[i] = g.runs[i][:140]
+		}
+	}
+	if len(g.fanPfx) > 140 {
+		g.fanPfx = g.fanPfx[:140]
+	}
+	for i := range g.collPfx {
+		if len(g.collPfx[i]) > 60 {
+			g.collPfx[i] = g.collPfx[i][:60]
+		}
+	}
+	if len(g.longStr) > 60 {
+		g.longStr = g.longStr[:60]
+	}
+	g.huge, g.long = false, false
+}
+
 func genRaceTrace(seed uint64, run int, o genOpts) *Trace {
 	r := NewRNG(mix2(mix2(seed, hashStr("C16/"+o.domain)), uint64(run)))
 	p := profileFor("C16")
@@ -442,6 +465,7 @@ func genRaceTrace(seed uint64, run int, o genOpts) *Trace {
 		kt := chooseKeyType(r, kind, run, false)
 		tr.Trees = append(tr.Trees, TreeCfg{Key: kt, Val: pick(r, []string{"i64", "ptr", "str"}), Shared: true})
 		g := newGenTree(r, kt, "i64", lim)
+		tameForRace(g)
 		gts = append(gts, g)
 		n := r.Range(1, 400)
 		fan := r.Chance(1, 2)
@@ -525,7 +549,9 @@ func genRaceTrace(seed uint64, run int, o genOpts) *Trace {
 		kind := allKinds[(run+j)%len(allKinds)]
 		kt := chooseKeyType(r, kind, run+j, false)
 		tr.Trees = append(tr.Trees, TreeCfg{Key: kt, Val: pick(r, []string{"i64", "i64", "ptr", "str", "big"})})
-		gts = append(gts, newGenTree(r, kt, "i64", lim))
+		pg := newGenTree(r, kt, "i64", lim)
+		tameForRace(pg)
+		gts = append(gts, pg)
 	}
 	_ = base
 	budget := r.Range(40, 400)
